@@ -7,11 +7,14 @@ Events == ndJsonDeserialize(IOEnv.TRACE_FILE)
 VARIABLE i
 Init == i = 1
 (*   [kind |-> "paths", ids]                 ids = the texts (digests) of the four render paths of one statement          *)
-Ok(e) == IF e.kind = "agg" THEN IsAgg(e.tree) = e.obs
+(*   [kind |-> "window", over, ord, frames, st, ids]   ids = the word / number tokens after the function's own brackets     *)
+Ok(e) == IF e.kind = "window" THEN WindowCall(e.over, e.ord, e.frames) = [st |-> e.st, ids |-> e.ids]
+         ELSE IF e.kind = "agg" THEN IsAgg(e.tree) = e.obs
          ELSE IF e.kind = "paths" THEN PathsAgree(e.ids)
          ELSE IF e.kind = "custom" THEN CustomCall(e.parts[1], e.parts[2]) = [st |-> e.st, ids |-> e.ids]
          ELSE FoldCrit(e.parts) = [st |-> e.st, ids |-> e.ids]
-WantStr(e) == IF e.kind = "agg" THEN IsAgg(e.tree) ELSE IF e.kind = "paths" THEN "one-text"
+WantStr(e) == IF e.kind = "window" THEN ToJson(WindowCall(e.over, e.ord, e.frames))
+              ELSE IF e.kind = "agg" THEN IsAgg(e.tree) ELSE IF e.kind = "paths" THEN "one-text"
               ELSE IF e.kind = "custom" THEN CustomCall(e.parts[1], e.parts[2]).st ELSE FoldCrit(e.parts).st
 Next == /\ i <= Len(Events)
         /\ IF Ok(Events[i]) THEN TRUE ELSE PrintT("V " \o ToJson([tid |-> Events[i].tid, want |-> WantStr(Events[i])]))
